@@ -212,6 +212,10 @@ func gen(r *verifsim.Rng, tier string) (any, hx.Sched) {
 	if r.Intn(4) == 0 {
 		// longer chains (a slice built by repeated append has spare capacity at 3, 5, 6 and 7 elements)
 		w.MW = 3 + r.Intn(6)
+		// (every middleware is one more frame per in-flight request under the process-wide call-depth counter: see above)
+		if limit := 150 / (w.MW + 6); nr > limit {
+			nr = limit
+		}
 	}
 	if !depthRun {
 		w.OnFormatAt = verifsim.Pick(r, []int{0, 0, 1, 2, 2})
